@@ -56,7 +56,7 @@ def run(ctx):
     ctx.drop('type annotations', 'docstrings')
     ctx.trust('the parse table is abstracted by two uninterpreted functions of the code point (membership, type); ParseTable is an immutable MapCover',
               'str indexing raises IndexError exactly outside [-len, len); dict lookup raises KeyError exactly for absent keys; set.remove raises KeyError for absent members',
-              'the compound readers (_read*, Polish/Standard _read_operated, _read_from_paren_open) are outside the proved set: their totality, determinism and closedness are bounded (exhaustive short strings against the reference grammar)')
+              'the prefix readers (DefaultParser._read*, PolishParser._read_operated) are each verified against a contract with the other readers under theirs (C13.reader.*): only ParseError escapes, progress, bound set restored, returned variables bound; StandardParser\'s infix / parenthesis readers and the denotation (which sentence is built) are bounded (exhaustive short strings and structured families against the reference grammar)')
     ctx.assume('recursion depth is outside the exception model (bounded: nesting up to 300 / 2000)', 'CPython semantics of the interpreted subset as encoded by pyvc/interp.py')
     ctx.explanation = ('Proved (ParseContext, interpreted from source over an SMT array input): current/next/has_current/has_next/assert_current/assert_end/advance never raise anything but ParseError and keep '
                        '0 <= pos; chomp has a loop invariant (only blanks skipped) and a variant (len - pos), ends at a non-blank or at the end, and swallows its IndexError; bind/check_bound/unbind implement '
@@ -114,6 +114,8 @@ def run(ctx):
     simple('C13.ParseContext.unbind', 'unbind', lambda pr, c, old: z3.And(z3.IsMember(v.key, old['bound']), z3.IsMember(v.key, sv), c.bound.S == z3.SetDel(old['bound'], v.key), c.pos == old['pos']),
            lambda pr, c, old: z3.And(z3.BoolVal(issubclass(pr.value.cls, ParseError)), z3.Or(z3.Not(z3.IsMember(v.key, old['bound'])), z3.Not(z3.IsMember(v.key, sv))), same(c, old)), args_fn=lambda c: (v, s),
            clause_text='unbind(v, s) removes v iff it is bound and occurs in s; otherwise a ParseError and no change (no vacuous quantifier)')
+    from checks import readers
+    readers.reader_obligations(ctx)
     hierarchy(ctx)
     bounded_strings(ctx)
     bounded_scope(ctx)
